@@ -46,7 +46,7 @@ def run(res, tier, seed):
         'the radii of an anisotropic grid are not recomputed by the model; their validity (ends, order, midpoints, nesting) is '
         'evaluated on the implementation output in exact arithmetic by Coq-extracted predicates (increasing_b proved sound)',
     ]
-    tr = C.run_translators(['t9_levels'])
+    tr = C.run_translators(['t9_levels', 't12_check_parameters'])
     for n, ok, msg in tr:
         res.obligation('translator:' + n, ok, msg[-300:])
         if not ok:
